@@ -1,6 +1,7 @@
 package props
 
 import (
+	"bytes"
 	"crypto/x509"
 	"crypto/x509/pkix"
 	"encoding/asn1"
@@ -339,6 +340,97 @@ func c05(x *mon.Ctx) {
 				w.RootCRL = world.MkCRLEntries(base.PKI.Root, this, next, es)
 			}
 			add(w, "revoked-with-entry-extension", tname+"/"+ename, "reject", on)
+		}
+	}
+	// ---- reasonCode values nobody has a name for on the revoking entry: negative, unused (7), beyond the table, wider than a word,
+	//      of another type, empty — listed is listed (or the CRL is refused); nothing indexes a table with them
+	for tname, serial := range cw.targets {
+		for rname, val := range map[string][]byte{
+			"minus-1": {0x0a, 0x01, 0xff}, "minus-128": {0x0a, 0x01, 0x80}, "unused-7": {0x0a, 0x01, 0x07}, "11": {0x0a, 0x01, 0x0b}, "127": {0x0a, 0x01, 0x7f}, "255": {0x0a, 0x02, 0x00, 0xff},
+			"max-int32": {0x0a, 0x04, 0x7f, 0xff, 0xff, 0xff}, "min-int32": {0x0a, 0x04, 0x80, 0x00, 0x00, 0x00}, "minus-2-to-the-63": {0x0a, 0x08, 0x80, 0, 0, 0, 0, 0, 0, 0},
+			"nine-bytes": {0x0a, 0x09, 0x01, 0, 0, 0, 0, 0, 0, 0, 0}, "integer-typed": {0x02, 0x01, 0x01}, "integer-typed-minus-1": {0x02, 0x01, 0xff}, "empty-enumerated": {0x0a, 0x00}, "null": {0x05, 0x00},
+		} {
+			for _, legacy := range []bool{true} { // (the newer builder refuses a reasonCode it did not encode itself)
+				w := base.Clone()
+				ext := []pkix.Extension{{Id: asn1.ObjectIdentifier{2, 5, 29, 21}, Value: val}}
+				var crl []byte
+				issuer := base.PKI.Root
+				if tname == "leaf" {
+					issuer = base.PKI.Inter
+				}
+				if legacy {
+					crl = world.MkCRLLegacy(issuer, this, next, []pkix.RevokedCertificate{{SerialNumber: big.NewInt(5), RevocationTime: this}, {SerialNumber: serial, RevocationTime: this, Extensions: ext}})
+				} else {
+					crl = world.MkCRLEntries(issuer, this, next, []x509.RevocationListEntry{{SerialNumber: big.NewInt(5), RevocationTime: this}, {SerialNumber: serial, RevocationTime: this, ExtraExtensions: ext}})
+				}
+				if tname == "leaf" {
+					w.PckCRL = crl
+				} else {
+					w.RootCRL = crl
+				}
+				add(w, "revoked-with-odd-reason-code", fmt.Sprintf("%s/%s/legacy-builder=%v", tname, rname, legacy), "reject", on)
+			}
+		}
+	}
+	// ---- the right CA signs a CRL that spells its own name in other bytes than its certificate does (UTF8String for PrintableString,
+	//      the RDNs in reverse order): whether such a CRL counts as the CA's or is refused, a serial it lists is not "absent"
+	for tname, serial := range cw.targets {
+		issuer := base.PKI.Root
+		if tname == "leaf" {
+			issuer = base.PKI.Inter
+		}
+		var rdns pkix.RDNSequence
+		if _, err := asn1.Unmarshal(issuer.Cert.RawSubject, &rdns); err != nil {
+			x.Broken("cannot decode an issuer name: " + err.Error())
+			break
+		}
+		for sname, respell := range map[string]func(pkix.RDNSequence) pkix.RDNSequence{
+			"utf8-strings": func(in pkix.RDNSequence) pkix.RDNSequence {
+				var out pkix.RDNSequence
+				for _, set := range in {
+					var ns pkix.RelativeDistinguishedNameSET
+					for _, atv := range set {
+						ns = append(ns, pkix.AttributeTypeAndValue{Type: atv.Type, Value: asn1.RawValue{Tag: 12, Bytes: []byte(fmt.Sprint(atv.Value))}})
+					}
+					out = append(out, ns)
+				}
+				return out
+			},
+			"reversed-rdns": func(in pkix.RDNSequence) pkix.RDNSequence {
+				out := append(pkix.RDNSequence{}, in...)
+				for i, j := 0, len(out)-1; i < j; i, j = i+1, j-1 {
+					out[i], out[j] = out[j], out[i]
+				}
+				return out
+			},
+		} {
+			raw, err := asn1.Marshal(respell(rdns))
+			if err != nil || bytes.Equal(raw, issuer.Cert.RawSubject) {
+				x.Broken(fmt.Sprintf("cannot respell an issuer name (%v)", err))
+				continue
+			}
+			cc := *issuer.Cert
+			cc.RawSubject = raw
+			ic := *issuer
+			ic.Cert = &cc
+			for _, listed := range []bool{true, false} {
+				w := base.Clone()
+				var rev []*big.Int
+				if listed {
+					rev = []*big.Int{big.NewInt(5), serial}
+				}
+				crl := world.MkCRLBare(&ic, this, next, rev)
+				if tname == "leaf" {
+					w.PckCRL = crl
+				} else {
+					w.RootCRL = crl
+				}
+				exp := "reject"
+				if !listed {
+					exp = "" // a CA's CRL under another spelling of its name may be taken or refused
+				}
+				add(w, "crl-issuer-name-respelled", fmt.Sprintf("%s/%s/listed=%v", tname, sname, listed), exp, on)
+			}
 		}
 	}
 	// ---- odd revocation dates on the revoking entry (year 1 = Go's zero time, far future, before thisUpdate): listed is listed
